@@ -204,8 +204,8 @@ class Node:
 
     def do_pickle_dump(self, cmd):
         x = self.slots[cmd['slot']]
-        if cmd.get('what') == 'lattice':
-            x = x.lattice
+        if cmd.get('what') == 'lattice' and not isinstance(x, self.C.lattices.Lattice):
+            x = x.lattice       # a slot may also hold a (loaded) lattice itself: second-generation pickles
 
         def go():
             data = pickle.dumps(x, cmd.get('protocol', 4))
@@ -214,7 +214,7 @@ class Node:
             return len(data)
         out = call(go)
         if not out.ok:
-            n = call(lambda: len(self.slots[cmd['slot']].lattice))
+            n = call(lambda: len(x))
             r = _err(out)
             r['n_concepts'] = n.value if n.ok else None
             return r
